@@ -3,7 +3,9 @@ EXTENDS CidLoad
 AllFormats == {"delimited", "fixed", "excel", "ods"}
 FieldTags == {"kw", "digit", "blank", "nonascii", "emptyname", "badmark", "unknowntype", "nottype", "badlength", "lengthorder",
               "neglength", "fixed:nolength", "fixed:range", "fixed:zero", "intrule", "intlength", "choicecomma", "choiceempty",
-              "constx", "regex", "example", "examplelength"}
+              "constx", "regex", "example", "examplelength",
+              \* a length / rule of several parts whose FIRST part is fine and whose later part is refused
+              "lengthlate", "rulelate"}
 CheckTags == {"emptydesc", "unknowntype", "emptytype", "desconly", "u:undeclared", "u:empty", "u:dup", "u:comma", "d:undeclared", "d:notbool",
               "d:syntax"}
 AllDeco == SUBSET {"comments", "blanks", "late"}
